@@ -8,7 +8,7 @@ contracts*: every choice is read from a tape of integers that is part of the gen
   elim_vars_by_refining  -> per term: weakest sufficient condition (forall-elimination), a random
                             strengthening, the term left untouched (leftover), or ValueError
   elim_vars_by_relaxing  -> per term: strongest necessary condition (exists-elimination), a random
-                            weakening, the term dropped; or ValueError; never a leftover
+                            weakening, the term dropped or handed back untouched (leftover); or ValueError
   simplify               -> any context-equivalent sub-list, or ValueError
   refines                -> True only for real containment; may answer False at will
 
@@ -166,7 +166,9 @@ class FTL(TermList):
                 if ok:
                     allowed.add(sv)
             if mode == "leftover":
-                if refine:
+                # refine: the term is left untouched; relax: it is either dropped or handed back untouched (the generic code
+                # anticipates leftovers after relaxation and removes them itself)
+                if refine or World.choice("relax-leftover-kept", 2) == 1:
                     out.append(t.copy())
                 continue
             World.eliminated += 1
